@@ -90,6 +90,47 @@ func makeRoot(ver, ctor string, num, den *big.Int) Num {
 	panic("unknown ctor " + ctor)
 }
 
+// makeRootShared calls a *big.Int / *big.Rat constructor with the caller's own objects (no copies made here).
+func makeRootShared(ver, ctor string, num *big.Int, rat *big.Rat) Num {
+	switch ver {
+	case "v1":
+		switch ctor {
+		case "SqrtBigInt":
+			return v1.SqrtBigInt(num)
+		case "CubeRootBigInt":
+			return v1.CubeRootBigInt(num)
+		case "SqrtBigRat":
+			return v1.SqrtBigRat(rat)
+		case "CubeRootBigRat":
+			return v1.CubeRootBigRat(rat)
+		}
+		return v1.NewNumberFromBigRat(rat)
+	case "v2":
+		switch ctor {
+		case "SqrtBigInt":
+			return v2.SqrtBigInt(num)
+		case "CubeRootBigInt":
+			return v2.CubeRootBigInt(num)
+		case "SqrtBigRat":
+			return v2.SqrtBigRat(rat)
+		case "CubeRootBigRat":
+			return v2.CubeRootBigRat(rat)
+		}
+		return v2.NewNumberFromBigRat(rat)
+	}
+	switch ctor {
+	case "SqrtBigInt":
+		return v3.SqrtBigInt(num)
+	case "CubeRootBigInt":
+		return v3.CubeRootBigInt(num)
+	case "SqrtBigRat":
+		return v3.SqrtBigRat(rat)
+	case "CubeRootBigRat":
+		return v3.CubeRootBigRat(rat)
+	}
+	return v3.NewNumberFromBigRat(rat)
+}
+
 // exerciseViews reads a bounded view of the Number backward and forward before its digits are observed: reads
 // through views and other read paths leave the Number's own digits as they are.
 func exerciseViews(x Num, n int) {
@@ -113,6 +154,33 @@ func exerciseViews(x Num, n int) {
 		for range y.WithStart(1).WithEnd(k).Values() {
 		}
 	}
+}
+
+// emptyBeyond: forward traversals that start at or after the end L of a finite Number are empty.
+func emptyBeyond(x Num, L int) bool {
+	for _, st := range []int{L, L + 1, L + 3, L + 250} {
+		switch y := x.(type) {
+		case *v1.Number:
+			if y.IteratorAt(st)() != -1 {
+				return false
+			}
+			if _, ok := y.WithStart(st).FullIterator()(); ok {
+				return false
+			}
+		case *v2.Number:
+			if _, ok := y.WithStart(st).Iterator()(); ok {
+				return false
+			}
+		case v3.Number:
+			for range y.WithStart(st).All() {
+				return false
+			}
+			if _, ok := y.WithStart(st).Iterator()(); ok {
+				return false
+			}
+		}
+	}
+	return true
 }
 
 // iterateDigits reads up to n digits with the version's forward iterator (v1 FullIterator, v2 Iterator, v3 All);
@@ -175,6 +243,9 @@ func observeDigits(x Num, n int) []string {
 	}
 	if ended && (x.At(math.MaxInt) != -1 || x.At(-1) != -1 || x.At(len(ds)) != -1 || x.At(math.MaxInt-1) != -1) {
 		ds = append(ds, 99) // positions at or beyond the end of a finite Number, however far, hold no digit
+	}
+	if ended && !emptyBeyond(x, len(ds)) {
+		ds = append(ds, 97) // iterating from a start at or beyond the end delivers nothing
 	}
 	t.ints(ds)
 	t.bool(ended)
